@@ -1144,12 +1144,16 @@ pub struct ScriptedLocal {
     woff: usize,
     flushes: u8,
     poisoned: bool,
+    /// bytes accepted by `poll_write` since the last COMPLETED flush (a buffering local side - BufWriter, TLS, a pipe - holds them back)
+    unflushed: usize,
+    /// something was consumed from the read half since the last time `poll_fill_buf` returned Pending
+    consumed_since_pending: bool,
 }
 
 impl ScriptedLocal {
     pub fn new(spec: BridgeSpec, log: Log, parking: Parking) -> Self {
         let stream = spec.stream as usize;
-        ScriptedLocal { spec, log, parking, stream, ri: 0, chunk_left: 0, chunk_buf: vec![], roff: 0, wi: 0, woff: 0, flushes: 0, poisoned: false }
+        ScriptedLocal { spec, log, parking, stream, ri: 0, chunk_left: 0, chunk_buf: vec![], roff: 0, wi: 0, woff: 0, flushes: 0, poisoned: false, unflushed: 0, consumed_since_pending: false }
     }
     fn wait(&self, n: u8, cx: &mut std::task::Context<'_>) -> bool {
         let mut g = self.parking.0.borrow_mut();
@@ -1158,6 +1162,16 @@ impl ScriptedLocal {
         } else {
             g.wakers.push((n, cx.waker().clone()));
             false
+        }
+    }
+    /// `poll_fill_buf` is about to return Pending. If nothing was consumed since the previous time, this is the FIRST read attempt of a
+    /// poll of the bridge (the previous poll ended with a pending read as well): the bridge's own rule is to flush the local writer
+    /// before it goes to sleep on such a poll, so whatever it wrote to a buffering local side becomes visible.
+    fn note_fill_pending(&mut self) {
+        let first_of_poll = !self.consumed_since_pending;
+        self.consumed_since_pending = false;
+        if self.unflushed > 0 {
+            self.log.app(AppEv::Note(format!("lstate unflushed={} after=read-pending first-of-poll={}", self.unflushed, u8::from(first_of_poll))));
         }
     }
     fn io_err(&self, what: &str) -> std::io::Error {
@@ -1193,11 +1207,17 @@ impl AsyncBufRead for ScriptedLocal {
         let dir = me.spec.end as usize; // the bridged end writes direction `end`
         loop {
             if me.chunk_left > 0 {
+                if me.unflushed > 0 {
+                    me.log.app(AppEv::Note(format!("lstate unflushed={} after=read-ready", me.unflushed)));
+                }
                 let start = me.chunk_buf.len() - me.chunk_left;
                 return Poll::Ready(Ok(&me.chunk_buf[start..]));
             }
             match me.spec.read.get(me.ri).cloned() {
-                None | Some(LR::PendingForever) => return Poll::Pending,
+                None | Some(LR::PendingForever) => {
+                    me.note_fill_pending();
+                    return Poll::Pending;
+                }
                 Some(LR::Chunk(n)) => {
                     me.ri += 1;
                     let n = n.max(1) as usize;
@@ -1208,12 +1228,16 @@ impl AsyncBufRead for ScriptedLocal {
                     if me.wait(k, cx) {
                         me.ri += 1;
                     } else {
+                        me.note_fill_pending();
                         return Poll::Pending;
                     }
                 }
                 Some(LR::Eof) => {
                     me.log.app(AppEv::LocalEof { stream: me.stream });
                     me.log.app(AppEv::Shutdown { stream: me.stream, end: me.spec.end as usize });
+                    if me.unflushed > 0 {
+                        me.log.app(AppEv::Note(format!("lstate unflushed={} after=read-eof", me.unflushed)));
+                    }
                     return Poll::Ready(Ok(&[]));
                 }
                 Some(LR::Err) => {
@@ -1231,6 +1255,9 @@ impl AsyncBufRead for ScriptedLocal {
         let amt = amt.min(me.chunk_left);
         me.chunk_left -= amt;
         me.roff += amt;
+        if amt > 0 {
+            me.consumed_since_pending = true;
+        }
         if amt > 0 {
             // bytes handed to the bridge for transmission
             me.log.app(AppEv::WriteOk { stream: me.stream, end: me.spec.end as usize, n: amt, vectored: false, empty: false });
@@ -1282,6 +1309,8 @@ impl AsyncWrite for ScriptedLocal {
         me.woff += n;
         if n > 0 {
             me.log.app(AppEv::ReadOk { stream: me.stream, end, n });
+            me.unflushed += n;
+            me.log.app(AppEv::Note(format!("lstate unflushed={} after=write", me.unflushed)));
         }
         Poll::Ready(Ok(n))
     }
@@ -1311,6 +1340,10 @@ impl AsyncWrite for ScriptedLocal {
             me.log.app(AppEv::LocalErr { stream: me.stream, op: "flush".into(), kind: me.kind_name() });
             return Poll::Ready(Err(me.io_err("scripted flush error")));
         }
+        if me.unflushed > 0 {
+            me.unflushed = 0;
+            me.log.app(AppEv::Note("lstate unflushed=0 after=flush".into()));
+        }
         Poll::Ready(Ok(()))
     }
     fn poll_shutdown(self: Pin<&mut Self>, cx: &mut std::task::Context<'_>) -> Poll<std::io::Result<()>> {
@@ -1318,6 +1351,8 @@ impl AsyncWrite for ScriptedLocal {
         match me.spec.shutdown.clone() {
             LS::Ok => {
                 me.log.app(AppEv::LocalShutdown { stream: me.stream, result: "ok".into() });
+                me.unflushed = 0;
+                me.log.app(AppEv::Note("lstate unflushed=0 after=shutdown".into()));
                 Poll::Ready(Ok(()))
             }
             LS::Err => {
@@ -1327,6 +1362,8 @@ impl AsyncWrite for ScriptedLocal {
             LS::PendingUntil(k) => {
                 if me.wait(k, cx) {
                     me.log.app(AppEv::LocalShutdown { stream: me.stream, result: "ok".into() });
+                    me.unflushed = 0;
+                    me.log.app(AppEv::Note("lstate unflushed=0 after=shutdown".into()));
                     Poll::Ready(Ok(()))
                 } else {
                     Poll::Pending
